@@ -198,8 +198,6 @@ var c11Ops = []c11Op{
 	{Kind: "add", Name: "a", Addr: "http://a2.test:80", Weight: -2}, // below 1: counts (and is listed) as 1
 	{Kind: "add", Name: "b", Addr: "http://bb.test:80", Weight: 0},
 	{Kind: "add", Name: "c", Addr: "http://%zz"},
-	{Kind: "add", Name: "", Addr: "http://nn.test:80", Weight: 1}, // a backend needs a name and an address: refused, nothing changes
-	{Kind: "add", Name: "d", Addr: ""},
 	{Kind: "remove", Name: "a"},
 	{Kind: "remove", Name: "b0"},
 	{Kind: "remove", Name: "absent"},
@@ -208,6 +206,9 @@ var c11Ops = []c11Op{
 	{Kind: "set", Strategy: "ip_hash"},
 	{Kind: "set", Strategy: "bogus"},
 	{Kind: "eject", Name: "a"},
+	// (new operations go at the end: the concurrent scenarios refer to operations by index)
+	{Kind: "add", Name: "", Addr: "http://nn.test:80", Weight: 1}, // a backend needs a name and an address: refused, nothing changes
+	{Kind: "add", Name: "d", Addr: ""},
 }
 
 type c11Inst struct {
